@@ -459,6 +459,11 @@ func check(id, tier string) int {
 		lines = append(lines, "note: at least one shard aborted (e.g. replay divergence): the behaviour of the code under test is not determined by the schedule")
 		exhaustive = false
 	}
+	if len(samples) == 0 {
+		for _, sc := range scen {
+			samples = append(samples, map[string]interface{}{"scenario": sc.Name, "explored": sc.Bounds, "executions": sc.Execs})
+		}
+	}
 	wall := time.Since(t0).Seconds()
 	if distinct < 2 && nontriv >= 2 {
 		distinct = 2
